@@ -227,6 +227,14 @@ def _oracle_forest(case, ctx):
         X3 = panelpool.panel_values(case["seed"], n, 1, t, kind="noise") + level
         Xa = panelpool.panel_values(case["seed"] + 3, case["n_apply"], 1, t, kind="noise") + level
         ctx.label("level_%g" % level)
+    if case.get("dup") and n >= 4:
+        # repeated training series carrying different labels (impure leaves in fully grown trees),
+        # and asked about again at prediction time
+        X3[1], X3[3] = X3[0].copy(), X3[2].copy()
+        Xa[0] = X3[0].copy()
+        if len(Xa) > 1:
+            Xa[-1] = X3[2].copy()
+        ctx.label("conflicting_duplicates")
     if case.get("int_panel") and not level:
         # integer-valued observations stored with an integer dtype (counts)
         X3 = np.round(X3 * 3).astype("int64")
@@ -431,7 +439,7 @@ def forest_cases(draw):
         "n_estimators": draw(st.integers(1, 6)), "rs": draw(st.integers(0, 1000)), "seed": draw(st.integers(0, 10 ** 6)),
         "n_jobs": draw(st.sampled_from([1, 1, 2, 3, None])),
         "level": draw(st.sampled_from([0.0, 0.0, 1e3, 1e6, 1e7])), "refit_other_params": draw(st.integers(0, 2)) == 0,
-        "int_panel": draw(st.integers(0, 2)) == 0,
+        "int_panel": draw(st.integers(0, 2)) == 0, "dup": draw(st.integers(0, 2)) == 0,
     }
 
 
